@@ -34,7 +34,8 @@ def scenario(ctx, i):
     tests = []
     for _ in range(nt):
         t = int(r.integers(0, 40)) if r.random() < 0.85 else 0
-        n = r.dirichlet(np.ones(C)) * t
+        # the frame count is a field of its own: hand-built / pruned / re-weighted statistics need not have sum(n) == t
+        n = r.dirichlet(np.ones(C)) * (t if r.random() < 0.6 else float(r.uniform(0, 40)) * (r.random() < 0.9))
         tests.append(dict(n=n, px=(m + r.normal(size=m.shape) * np.sqrt(v)) * n[:, None], t=t))
     single = bool(r.random() < 0.2)
     if single:
@@ -68,7 +69,21 @@ def call_impl(sc):
     sts = [gen.mk_stats(sc["C"], sc["D"], t["n"], t["px"], np.zeros((sc["C"], sc["D"])), t["t"]) for t in sc["tests"]]
     st_arg = sts[0] if sc["single"] else sts
     off = sc["off"]
-    return core.impl(lambda: np.asarray(linear_scoring(mm, ubm_arg, st_arg, off, sc["norm"]), dtype=float))
+    def run():
+        # the same argument objects are scored twice: a pure function returns the same scores and leaves its arguments alone
+        keep = mm.copy() if isinstance(mm, np.ndarray) else None
+        keep_off = np.array(off, dtype=float, copy=True) if isinstance(off, np.ndarray) else None
+        r1 = np.asarray(linear_scoring(mm, ubm_arg, st_arg, off, sc["norm"]), dtype=float)
+        r2 = np.asarray(linear_scoring(mm, ubm_arg, st_arg, off, sc["norm"]), dtype=float)
+        if keep is not None and not np.array_equal(mm, keep):
+            raise RuntimeError("linear_scoring modified the array of model means it was given")
+        if keep_off is not None and not np.array_equal(off, keep_off):
+            raise RuntimeError("linear_scoring modified the channel offsets it was given")
+        if r1.shape != r2.shape or not np.array_equal(r1, r2):
+            raise RuntimeError(f"a second call with the same arguments gave other scores: {r1.tolist()} then {r2.tolist()}")
+        return r2
+
+    return core.impl(run)
 
 
 def line(sc):
